@@ -158,7 +158,7 @@ Qed.
 Lemma ex_history_trace :
   map fst (run_hist ex_env (mkSt ex_fs []) ex_ops) =
   [ [(0, 15); (1, 300); (2, 15); (3, 200); (4, 5); (5, 100); (4, 4); (2, 12); (0, 12)];
-    [(1, -1); (4, 12); (4, 8); (5, 20); (2, 8)] ].
+    [(1, -1); (4, 12); (5, 20); (4, 8); (2, 8)] ].
 Proof. vm_compute. reflexivity. Qed.
 
 Lemma ex_be_hyps :
